@@ -29,7 +29,8 @@
 (* `full` = every key given a non-default value, `min` = required only):   *)
 (*   none | unknown(point) | wrongtype(leaf) | range(leaf, bad value) |    *)
 (*   ph(leaf, env|property, set|unset) | emb(str leaf) | phnokey(str leaf, *)
-(*   ${property:file} without #key) | absent(leaf) |                       *)
+(*   ${property:file} without #key) | misspell(leaf, near miss of a       *)
+(*   documented key) | absent(leaf) |                                      *)
 (*   dropcomp(required component of a pool).                               *)
 (*                                                                         *)
 (* MODEL.  Decode is implementation shaped: placeholder substitution       *)
@@ -275,6 +276,18 @@ Points(V) == SpecPoints(V) \cup ReflOf(V)
 
 ---------------------------------------------------------------------------
 (* the cases *)
+\* near misses of documented keys (a dash for an underscore and the like): must be rejected like any unknown key.
+\* Hand-written, because strings are opaque to TLC: k = the documented last path element, m = the misspelling.
+Misspellings == << [k |-> "discard_overflow", m |-> "discard-overflow"], [k |-> "rps-per-instance", m |-> "rps_per_instance"],
+                   [k |-> "stepduration", m |-> "step-duration"], [k |-> "flush-time", m |-> "flush_time"],
+                   [k |-> "uri-elements", m |-> "uri_elements"], [k |-> "dns-cache", m |-> "dns_cache"],
+                   [k |-> "client-number", m |-> "client_number"], [k |-> "reflect_port", m |-> "reflect-port"],
+                   [k |-> "dial_options", m |-> "dial-options"], [k |-> "chosencases", m |-> "chosen-cases"],
+                   [k |-> "max-idle-conns", m |-> "max_idle_conns"], [k |-> "no-tag-only", m |-> "notagonly"] >>
+\* the position in the path at which the documented key k occurs (0 if it does not)
+KeyPos(p, k) == IF \E n \in 1..Len(p) : p[n] = k THEN CHOOSE n \in 1..Len(p) : p[n] = k ELSE 0
+Respell(p, n, m) == [i \in 1..Len(p) |-> IF i = n THEN m ELSE p[i]]
+
 NoCase == [v |-> "", base |-> "", kind |-> "none", p |-> <<>>, i |-> 0, src |-> "", set |-> TRUE]
 MkCase(V, b, kind, p, i, src, set) == [v |-> V.name, base |-> b, kind |-> kind, p |-> p, i |-> i, src |-> src, set |-> set]
 
@@ -291,6 +304,8 @@ CasesOf(V) ==
                                           /\ (x[1] = "full" \/ ~\E q \in V.mwmin : IsPrefix(q, V.leaves[x[2]].p))}}
     \cup {MkCase(V, "full", "emb", V.leaves[j].p, j, "env", TRUE) : j \in {i \in 1..n : /\ V.leaves[i].k = "str" /\ V.leaves[i].fl = "opt"
                                                                                             /\ ~\E b \in 1..Len(V.bads) : V.bads[b].p = V.leaves[i].p}}
+    \cup {MkCase(V, "full", "misspell", V.leaves[j].p, j, Misspellings[x].m, TRUE) :
+              <<j, x>> \in {jx \in (1..n) \X (1..Len(Misspellings)) : KeyPos(V.leaves[jx[1]].p, Misspellings[jx[2]].k) > 0}}
     \cup {MkCase(V, "full", "emblist", V.leaves[j].p, j, "env", TRUE) : j \in {i \in 1..n : V.leaves[i].k = "strlist"}}
     \cup {MkCase(V, "full", "phnokey", V.leaves[j].p, j, "property", TRUE) : j \in {i \in 1..n : V.leaves[i].k = "str"}}
     \cup {MkCase(V, "full", "absent", V.leaves[j].p, j, "", TRUE) : j \in {i \in 1..n : V.leaves[i].fl # "fix"}}
@@ -308,6 +323,9 @@ Delta(c) ==
          [] c.kind = "range"     -> [set |-> <<[p |-> c.p, t |-> RT(V.bads[c.i].k), v |-> V.bads[c.i].r]>>, del |-> <<>>]
          [] c.kind = "ph"        -> [set |-> <<[p |-> c.p, t |-> "str", v |-> IF c.src = "env" THEN "${env:VERIF_PH}" ELSE "${property:@PROPS@#VERIF_PH}"]>>,
                                      del |-> <<>>]
+         [] c.kind = "misspell"  -> LET x == CHOOSE x \in 1..Len(Misspellings) : Misspellings[x].m = c.src
+                                        n == KeyPos(c.p, Misspellings[x].k)
+                                    IN [set |-> <<[p |-> Respell(c.p, n, c.src), t |-> RT(lf.k), v |-> lf.r]>>, del |-> <<c.p>>]
          [] c.kind = "emblist"   -> [set |-> <<[p |-> c.p, t |-> "list", v |-> "[User-Agent: ${env:VERIF_PH}]|[X-Other: y]"]>>, del |-> <<>>]  \* docs/eng/config.md
          [] c.kind = "phnokey"   -> [set |-> <<[p |-> c.p, t |-> "str", v |-> "${property:@PROPS@}"]>>, del |-> <<>>]   \* no '#key'
          [] c.kind = "emb"       -> [set |-> <<[p |-> c.p, t |-> "str", v |-> "pre-${env:VERIF_PH}-post"]>>, del |-> <<>>]
@@ -335,7 +353,7 @@ Substitute(c) == IF (c.kind = "ph" /\ ~c.set /\ UnsetIsError) \/ c.kind = "phnok
 \* stage 2 - typed decoding of every given value
 TypedDecode(c) == IF c.kind = "wrongtype" /\ StrictTypes THEN "error" ELSE "ok"
 \* stage 3 - keys nobody consumed
-UnusedCheck(c) == IF c.kind = "unknown" /\ ErrorUnused THEN "error" ELSE "ok"
+UnusedCheck(c) == IF c.kind \in {"unknown", "misspell"} /\ ErrorUnused THEN "error" ELSE "ok"
 \* stage 4 - validation tags (required, min, min-time, endpoint, ...)
 RequiredMissing(c) ==
     LET V == Variants[VarByName(c.v)] IN
@@ -379,7 +397,7 @@ Done == stage = Len(Stages)
 (* THE PROPERTY over (case, result), independent of the stage functions *)
 TheV == Variants[VarByName(cs.v)]
 \* an unknown key at any nesting level is an error
-Strict == Done /\ cs.kind = "unknown" => err
+Strict == Done /\ cs.kind \in {"unknown", "misspell"} => err
 \* a wrongly typed value is an error
 Typed == Done /\ cs.kind = "wrongtype" => err
 \* a value violating a documented constraint is an error; so is leaving out something required
